@@ -113,6 +113,19 @@ def w_solve(ctx, rng, idx):
     if gk == 'maximal':
         ctx.check('sle.' + name, 'maximal_rank_guess_exact_after_one_sweep', errs[0][0] <= 1e-7 * nx * np.sqrt(cA) + 1e-300, tags,
                   {'err': errs[0][0], 'norm': nx, 'cond': cA, 'dims': dims, 'guess_ranks': g.ranks}, prop=P)
+    # the same operator / guess objects with another right-hand side, and with the right-hand side changed in place by its owner
+    if rng.random() < 0.5:
+        with probe.oracle():
+            b2 = gen.rand_tt(rng, dims, [1] * len(dims), gen.rand_ranks(rng, len(dims), 3), cplx and rng.random() < 0.8)
+        for which in (0, 1):
+            if which == 1:
+                with probe.oracle():
+                    b2.cores[-1] = b2.cores[-1] * float(rng.uniform(1.5, 3.0))
+            ok, x2 = call('sle.' + name, fn, A, g, b2, prop=P, tags=tags + ['second_call'], refusals=(np.linalg.LinAlgError,), repeats=1, **kw)
+            if ok and gk == 'maximal':
+                e2 = aerr(A, b2, x2)
+                ctx.check('sle.' + name, 'maximal_rank_guess_exact_after_one_sweep', e2[0] <= 1e-7 * e2[1] * np.sqrt(e2[2]) + 1e-300, tags + ['second_call'],
+                          {'err': e2[0], 'norm': e2[1], 'cond': e2[2], 'dims': dims, 'guess_ranks': g.ranks}, prop=P)
     # rank-capped MALS
     if use_mals:
         # every combination of the cap with the other truncation setting (threshold 0 switches the relative cut off entirely,
